@@ -107,7 +107,11 @@ DeclCtxNeeded(prog) == prog.declB = "ctx" /\ "B" \in ReachIds(prog, {"A"}, {}) /
 \* method ConvL (no other method may turn *int into int)
 KindsA(prog) == {prog.shape.A[i] : i \in DOMAIN prog.shape.A}
 UnderOK(prog) == ("nI2s" \in KindsA(prog) => prog.under) /\ ("nL" \in KindsA(prog) => prog.under /\ prog.declL)
-GenOK(prog) == UnderOK(prog) /\ ~(UsesExt(prog) /\ prog.extErr /\ ~prog.rootErr) /\ ~(UsesExt(prog) /\ prog.extCtx /\ ~prog.rootCtx) /\ ~DeclCtxNeeded(prog)
+\* the further declared method Tail(source H) H2 has no error result: a fallible function reachable from B, or the declared Conv
+\* with its error result, must make generation fail
+UsesExtFrom(prog, id0) == \E id \in ReachIds(prog, {id0}, {}) : \E i \in DOMAIN DF(prog.shape, id) : NeedsE(DF(prog.shape, id)[i].t, DF(prog.shape, id \o "2")[i].t)
+TailOK(prog) == DeclH(prog) => ~((UsesExtFrom(prog, "B") /\ prog.extErr) \/ ("A" \in ReachIds(prog, {"B"}, {}) /\ prog.rootErr))
+GenOK(prog) == UnderOK(prog) /\ TailOK(prog) /\ ~(UsesExt(prog) /\ prog.extErr /\ ~prog.rootErr) /\ ~(UsesExt(prog) /\ prog.extCtx /\ ~prog.rootCtx) /\ ~DeclCtxNeeded(prog)
 
 RECURSIVE SMapN(_,_,_,_), Reached(_,_,_,_,_)
 \* C06: every int -> string position, at any depth, carries E's result (with the context passed unchanged)
